@@ -6,7 +6,7 @@ import framework
 from framework import REPO, ROOT
 
 TIE = ["Nsq.Tie.Gate"]
-PROPS = ["Nsq.Props.C11"]
+PROPS = ["Nsq.Props.C11", "Nsq.Props.C11Auth"]
 
 DENY_CODES = ("E_AUTH_FIRST", "E_AUTH_FAILED", "E_UNAUTHORIZED", "E_AUTH_DISABLED")
 OPS = ("cfg", "http", "https", "conn", "c", "cx", "cp", "cb", "cz", "x")
@@ -229,6 +229,55 @@ def report(ctx, binp, env, st, label):
     return broken
 
 
+def authq_leg(ctx, corr_broken):
+    """Round 6: the request side of internal/auth (QueryAuthd's URL / parameters, QueryAnyAuthd's walk, the TTL
+    arithmetic) — the real functions against recording HTTP servers, replayed through Nsq.Model.AuthQuery."""
+    binp = ctx.go_test_binary("internal/auth", ["gate/authq_test.go"], "authq", pkgname="auth")
+    if not binp:
+        ctx.broken_ties.append("harness gate/authq_test.go does not compile against the current tree")
+        corr_broken.append("authq harness build")
+        return
+    N = ctx.budget(700, 6000)
+    rc, out = ctx.run_cmd([binp, "-test.run", "^TestVerifAuthQuery$", "-test.count=1", "-test.timeout=1500s"],
+                          timeout=1600, env={"VERIF_SEED": ctx.seed, "VERIF_N": N, "VERIF_OUT": ctx.work})
+    hist = {}
+    for l in out.splitlines():
+        p = l.split()
+        if l.startswith("HIST ") and len(p) == 3:
+            hist[p[1]] = int(p[2])
+    ctx.corr.setdefault("histogram_authq", hist)
+    fails = [l for l in out.splitlines() if l.startswith("ORACLE-FAIL")]
+    for l in fails:
+        m = re.match(r"ORACLE-FAIL key=(\S+) op=(\S+) what=(.*)", l)
+        if m:
+            ctx.violation(m.group(1), m.group(3)[:400], "# %s\n%s\n" % (l[:600], m.group(2).replace("|", " ")))
+        else:
+            ctx.violation("authq-oracle", l[:400], l + "\n")
+    if rc != 0 or (not fails and "ORACLE-OK" not in out):
+        ctx.log("authq harness failed (rc=%s):\n%s" % (rc, out[-2000:]))
+        corr_broken.append("authq harness exit %s" % rc)
+    opsf = os.path.join(ctx.work, "authq.ops")
+    if not os.path.exists(opsf):
+        return
+    ops = open(opsf).read().splitlines()
+    impl = open(os.path.join(ctx.work, "authq.impl")).read().splitlines()
+    rc, mout = ctx.driver("gate", stdin_path=opsf, timeout=600)
+    model = mout.splitlines()
+    nd = 0
+    for i, o in enumerate(ops):
+        a = impl[i] if i < len(impl) else "<missing>"
+        b = model[i] if i < len(model) else "<missing>"
+        ctx.count_case("authq|" + o, nontrivial=True)
+        if i % 61 == 0:
+            ctx.add_sample({"op": o[:300], "impl": a[:300]})
+        if a != b:
+            nd += 1
+            if nd <= 4:
+                ctx.log("auth query model/impl disagree on `%s`:\n   impl  %s\n   model %s" % (o[:300], a[:400], b[:400]))
+                corr_broken.append("correspondence authq: %s" % o[:160])
+    ctx.diff_lines(impl, model, "authq")
+
+
 def run(ctx):
     ctx.trusted += [
         "translator tools/go2lean (kinds toplevel, stmts, errsites, callers, fieldwrites, consts, calls): statement "
@@ -315,6 +364,8 @@ def run(ctx):
                 for o, i in zipped[3:5] + zipped[len(zipped) // 2:len(zipped) // 2 + 3] + zipped[-2:]:
                     ctx.add_sample({"op": o[:300], "impl": i[:300]})
                 corr_broken += report(ctx, binp, env, st, stream)
+    if not ctx.replay_in:
+        authq_leg(ctx, corr_broken)
     if (ctx.broken_ties or corr_broken) and not ctx.violations:
         ctx.broken_without_input(ctx.broken_ties + corr_broken,
                                  "search: %d generated commands under the direct oracle (TLS gate, auth gate, "
